@@ -39,6 +39,9 @@ CHECKS = {
  "C08": (EX, "small-scope exhaustive enumeration of point multisets, field assignments (incl. NaN), bin-edge subsets, direction sets / tolerances / bandwidths and grid masks against an O(n^2) pair-enumeration oracle; counts compared exactly",
          "All multisets of up to 4 points of a small lattice (duplicates, collinear, equal distances; ordered tuples for the smallest sizes), every value assignment from {0,1,3.5,NaN}, every increasing edge subset of an alphabet whose members coincide with pair distances (half-open bin semantics decided on exact hits), both estimators; lat-lon sets with poles, date line and antipodes against the atan2 great-circle formula; all direction sets of size 1-3 incl. an obtuse pair x 4 tolerances x 3 bandwidths, overlapping and separated search, kernel level and through vario_estimate; every small grid x mask pattern x missing-value encoding for the along-axis estimator.",
          "points on small lattices, at most 4 (5) points; cases inside the 1e-9 guard band of a decision boundary skipped (counted)", "5/C08"),
+ "C09": (EX, "metamorphic relations over complete small spaces through vario_estimate: all permutations, all lattice symmetries, generic rigid motions, field offsets / factors, every removal of <= 2 points vs every missing-value encoding, structured vs unstructured, seeded sub-sampling vs the reproducible subset, co-rotated directions, unit conversion on the sphere, standard bins, preprocessing",
+         "Every relation is executed on all point multisets (n <= 5) of a small lattice or all small grids, with all n! permutations and all 2^d d! lattice symmetries in exact arithmetic (counts identical), so no reference value is needed; missing-value handling is compared against physically removed points for every subset of <= 2 points and every pair of per-field missing positions; lat-lon binning is compared across units and against the great-circle oracle.",
+         "small point sets; generic rotations are three per seed with bin edges outside the guard band", "5/C09"),
 }
 PENDING = {}
 def main():
